@@ -355,10 +355,13 @@ func StaticOrClosureCallee2(call ssa.CallInstruction, argIdx int) *ssa.Function 
 		return nil
 	}
 
-	if mc, ok := Fwd(args[argIdx]).(*ssa.MakeClosure); ok {
-		if f, ok := mc.Fn.(*ssa.Function); ok {
+	switch x := Fwd(args[argIdx]).(type) {
+	case *ssa.MakeClosure:
+		if f, ok := x.Fn.(*ssa.Function); ok {
 			return f
 		}
+	case *ssa.Function:
+		return x // a closure that captures nothing
 	}
 
 	return nil
